@@ -10,6 +10,10 @@
 (*                 (SHA-256 of the bytes), while mode is "r+" at the grain of the raw content   *)
 (*                 digest (an open writable HDF5 file has transient bytes).                     *)
 (*   live        - abstract token of the in-memory objects: "sync" = as loaded from the file,   *)
+(*                 "refused" = nothing but refused mutating calls since the load (a refusal     *)
+(*                 may have detached a child or changed the one attribute it was asked to       *)
+(*                 assign, but it never makes the library believe an entity is not stored: every *)
+(*                 assignment still has to write and must still be refused),                    *)
 (*                 "any" = unconstrained (after a refused write the setter has already changed  *)
 (*                 the attribute in memory, a refused removal has already detached the child,   *)
 (*                 Workspace.repack may have been raised ...: DESIGN.md section 8, C10 bullet). *)
@@ -49,6 +53,7 @@ Modes == {"closed", "r", "r+"}
 Outs  == {"ok", "refused"}
 Pristine == fileVersion = 0
 Exact == Pristine /\ live = "sync"       \* the state in which the binding was classified
+Firm  == Pristine /\ live \in {"sync", "refused"}   \* only refusals since: assignments keep their exact verdict
 ObsW(act, args, out, w) == last' = [act |-> act, args |-> args, out |-> out, wopen |-> w]
 Obs(act, args, out) == ObsW(act, args, out, FALSE)
 
@@ -131,9 +136,13 @@ Write(op) ==
        THEN /\ \E out \in Outs :
                  /\ (Exact /\ "WriteIgnored" \notin Deviations => out = "refused")
                  /\ (Exact /\ "WriteIgnored" \in Deviations => out = "ok")
+                 \* an assignment after nothing but refusals (e.g. after the refused removal of the same entity:
+                 \* Workspace.remove_entity -> remove_recursively, workspace.py:602-676) is refused as well
+                 /\ (Firm /\ ~Exact /\ op \in RepeatOps /\ "RefusalUnprotects" \notin Deviations => out = "refused")
+                 /\ (Firm /\ ~Exact /\ op \in RepeatOps /\ "RefusalUnprotects" \in Deviations => out = "ok")
                  /\ Obs("Write", [op |-> op], out)
-                 /\ rep' = IF Exact /\ out = "refused" /\ op \in RepeatOps THEN op ELSE "none"
-            /\ live' = "any"
+                 /\ rep' = IF Firm /\ out = "refused" /\ op \in RepeatOps THEN op ELSE "none"
+                 /\ live' = IF out = "refused" /\ live # "any" THEN "refused" ELSE "any"
             /\ IF "WriteThroughReadOnly" \in Deviations /\ fileVersion < MaxVersion
                THEN fileVersion' = fileVersion + 1 ELSE fileVersion' = fileVersion
        ELSE /\ fileVersion < MaxVersion /\ rep' = "none"
@@ -225,7 +234,7 @@ DepthBound == TLCGet("level") <= MaxDepth
 
 \* ------------------------------------------------------------------ properties (C10)
 TypeOK ==
-    /\ mode \in Modes /\ fileVersion \in 0..MaxVersion /\ live \in {"sync", "any"}
+    /\ mode \in Modes /\ fileVersion \in 0..MaxVersion /\ live \in {"sync", "refused", "any"}
     /\ ctx \in {"none", "keep", "close"} /\ rep \in {"none"} \cup RepeatOps
     /\ last.out \in Outs /\ last.wopen \in BOOLEAN
 
@@ -241,7 +250,7 @@ ReadOnlyFrozen ==
 ClosedFrozen == [][mode = "closed" => fileVersion' = fileVersion]_vars
 \* every call that would have to write fails with an error
 WritesRefused ==
-    [][(last'.act = "Write" /\ mode = "r" /\ Exact) => last'.out = "refused"]_vars
+    [][(last'.act = "Write" /\ mode = "r" /\ (Exact \/ (Firm /\ last'.args.op \in RepeatOps))) => last'.out = "refused"]_vars
 \* ... however often it is asked
 RepeatRefused ==
     [][last'.act = "Repeat" => last'.out = "refused" /\ fileVersion' = fileVersion /\ mode' = mode]_vars
